@@ -9,6 +9,7 @@ CONSTANTS
   Retention <- TraceRetention
   Lookback <- TraceLookback
   MaxPast <- TraceMaxPast
+  U <- TraceU
   OOT <- TraceOOT
   MFD <- TraceMFD
   Dev <- TraceDev
@@ -17,7 +18,7 @@ CHECK_DEADLOCK FALSE
 """
 
 VIEWS = {
-    "all": ["st", "mls", "chain", "members", "pend", "props", "mdata", "rec", "last", "msgs", "proc", "snaps", "res", "out", "notif"],
+    "all": ["st", "mls", "chain", "members", "pend", "props", "mdata", "rec", "last", "msgs", "proc", "snaps", "res", "out", "notif", "welc"],
     # per-property views: only what the property talks about is bound
     "C01": ["st", "mls", "chain", "members", "mdata"],
     "C02": ["mls", "chain", "msgs"],
@@ -29,8 +30,8 @@ VIEWS = {
     "C04": ["mls", "msgs", "res"],
     "C05": ["st", "mls", "chain", "members", "mdata", "pend", "props", "res"],
     "C06": ["st", "mls", "chain", "members", "mdata", "pend", "props", "msgs", "rec", "res"],
-    "C16": ["st", "mls", "chain", "members", "mdata", "rec", "pend", "props", "res"],
-    "C11": ["st", "mls", "chain", "members", "pend", "props", "mdata", "rec", "last", "msgs", "proc", "snaps", "res", "out"],
+    "C16": ["st", "mls", "chain", "members", "mdata", "rec", "pend", "props", "res", "welc"],
+    "C11": ["st", "mls", "chain", "members", "pend", "props", "mdata", "rec", "last", "msgs", "proc", "snaps", "res", "out", "welc"],
 }
 
 
@@ -127,8 +128,17 @@ def run_marmot(ctx, rt, *, invariants, properties=(), view, mc, profiles, nontri
         extra = ent[3] if len(ent) > 3 else ""
         if "-simulate" in extra:
             extra = extra + " -seed %d" % (seed + 7)
-        r = rt.tlc_mc(module, cfg, workers=8, timeout=to, extra=extra)
-        mc_runs.append({"cfg": cfg, "mode": "simulation" if "-simulate" in extra else "exhaustive", "states": r["states"],
+        # the bounded instance is checked on the AS-BUILT flag set: exactly the deviations listed in known_findings.json
+        import re as _re
+        cfg_txt = open(os.path.join(rt.SPEC, cfg)).read()
+        cfg_txt = _re.sub(r"(?m)^  Dev = \{.*\}$", "  Dev = {%s}" % ",".join('"%s"' % d for d in dev), cfg_txt)
+        tmp_cfg = "mc_%d_%s" % (os.getpid(), cfg)
+        open(os.path.join(rt.SPEC, tmp_cfg), "w").write(cfg_txt)
+        try:
+            r = rt.tlc_mc(module, tmp_cfg, workers=8, timeout=to, extra=extra)
+        finally:
+            os.remove(os.path.join(rt.SPEC, tmp_cfg))
+        mc_runs.append({"cfg": cfg, "dev": dev, "mode": "simulation" if "-simulate" in extra else "exhaustive", "states": r["states"],
                         "transitions": r["transitions"], "behaviours": r.get("behaviours", 0), "completed": r["completed"]})
         states += r["states"]
         transitions += r["transitions"]
@@ -264,6 +274,12 @@ MC_CORE = {"quick": [("MCMarmot.tla", "MC_core_quick.cfg", 600),
                         ("MCMarmot.tla", "MC_full_sim.cfg", 1500, "-simulate num=20000 -depth 60")]}
 
 
+# + the invitation / membership instance (add, remove, welcomes under two wrapper ids, accept / decline / re-accept, key-package
+#   deletion, restarts), explored exhaustively breadth-first up to a depth (9 steps quick, 12 thorough)
+MC_MEMBER = {"quick": MC_CORE["quick"] + [("MCMarmot.tla", "MC_member_quick.cfg", 900)],
+             "thorough": MC_CORE["thorough"] + [("MCMarmot.tla", "MC_member_thorough.cfg", 3000)]}
+
+
 def core_profiles(extra=None, n=10, steps=40):
     q = [dict(n=n, steps=steps, backend="mem", regime="causal", profile="core"),
          dict(n=n, steps=steps, backend="sql", regime="causal", profile="core"),
@@ -328,7 +344,7 @@ def plan_C20(ctx, rt):
                                  dict(n=4, steps=40, backend="mixed", regime="causal", profile="core", retention=0)]
     pr["thorough"] = pr["thorough"] + [dict(n=30, steps=70, backend="sql", regime="causal", profile=["core", "members"][i % 2], restarts=1, ttl=1,
                                             retention=[0, 1, 4, 6][i % 4], groups=1 + i % 2) for i in range(4)]
-    return run_marmot(ctx, rt, invariants=["InvC20"], properties=["ActC20"], view="C20", mc=MC_CORE, profiles=pr,
+    return run_marmot(ctx, rt, invariants=["InvC20"], properties=["ActC20"], view="C20", mc=MC_MEMBER, profiles=pr, schedules=["reaccept_snapshots.json"],
                       nontrivial=nt_commit, assumptions=ASSUME_MARMOT + ["snapshot ages are measured by the driver's own wall clock (seconds); a restart with a "
                                 "TTL is issued only when every stored snapshot is unambiguously older or younger than the TTL"],
                       rule="as C01 with retention in {0,1,2,3,5,6}; stored snapshot list compared after every call; restarts with "
@@ -357,10 +373,11 @@ def observer_profiles():
     q = [dict(n=10, steps=60, backend="mixed", regime="causal", profile="members", observers=1, groups=2),
          dict(n=10, steps=60, backend="sql", regime="causal", profile="members", observers=1, retention=2),
          dict(n=8, steps=50, backend="mem", regime="causal", profile="members", observers=1, restarts=0)]
-    q += [dict(n=6, backend="mixed", profile="leaf"), dict(n=8, backend="mixed", profile="welcome")]
+    q += [dict(n=6, backend="mixed", profile="leaf"), dict(n=8, backend="mixed", profile="welcome"), dict(n=8, backend="mixed", profile="devices")]
     t = [dict(n=50, steps=70, backend=["mem", "sql", "mixed"][i % 3], regime="causal", profile="members", observers=1,
               retention=[5, 2, 1, 3][i % 4]) for i in range(8)]
-    t += [dict(n=50, backend="mixed", profile="leaf"), dict(n=50, backend="mixed", profile="welcome")]
+    t += [dict(n=50, backend="mixed", profile="leaf"), dict(n=50, backend="mixed", profile="welcome"),
+          dict(n=50, backend="mixed", profile="devices"), dict(n=30, backend="sql", profile="devices")]
     return {"quick": q, "thorough": t}
 
 
@@ -370,7 +387,7 @@ def nt_observer(h):
 
 
 def plan_C03(ctx, rt):
-    return run_marmot(ctx, rt, invariants=["InvC03"], properties=["ActC03"], view="C03", mc=MC_CORE,
+    return run_marmot(ctx, rt, invariants=["InvC03"], properties=["ActC03"], view="C03", mc=MC_MEMBER,
                       profiles=observer_profiles(), nontrivial=nt_observer,
                       assumptions=ASSUME_MARMOT + ["secrecy of MLS/NIP-44 ciphertext without the key is assumed (symbolic); the check decides "
                                                     "whether the key-handling logic ever lets a non-member of the sending epoch store or return a message"],
@@ -405,7 +422,7 @@ def nt_welcome(h):
 
 
 def plan_C16(ctx, rt):
-    return run_marmot(ctx, rt, invariants=["InvC16", "InvC08"], properties=["ActC16", "ActC16Join"], view="C16", mc=MC_CORE,
+    return run_marmot(ctx, rt, invariants=["InvC16", "InvC08"], properties=["ActC16", "ActC16Join"], view="C16", mc=MC_MEMBER,
                       profiles=welcome_profiles(), nontrivial=nt_welcome, assumptions=ASSUME_MARMOT, schedules=["two_welcomes.json"],
                       rule="directed-random invitation scenarios: valid welcome, the same rumor replayed under fresh wrapper ids, welcome "
                            "handed to a non-recipient, process/accept/decline in random order and repetition, interleaved with messages and "
@@ -546,7 +563,7 @@ ASSUME_ADV = ["the adversary is a real group member whose client bypasses mdk's 
 def plan_C04(ctx, rt):
     pr = adversary_profiles()
     # late wrappers of a removed member whose leaf has been taken over by a newcomer (authentication against the sender's epoch)
-    pr["quick"] = pr["quick"] + [dict(n=10, backend="mixed", profile="leaf")]
+    pr["quick"] = pr["quick"] + [dict(n=10, backend="mixed", profile="leaf"), dict(n=6, backend="mixed", profile="devices")]
     pr["thorough"] = pr["thorough"] + [dict(n=60, backend=["mixed", "mem", "sql"][i], profile="leaf", maxpast=[5, 2, 5][i]) for i in range(3)]
     return run_marmot(ctx, rt, invariants=["InvC04"], properties=["ActC04", "ActC02"], view="C04", mc=MC_CORE,
                       profiles=pr, nontrivial=nt_forge, assumptions=ASSUME_MARMOT + ASSUME_ADV,
@@ -558,7 +575,7 @@ def plan_C04(ctx, rt):
 def plan_C05(ctx, rt):
     pr = adversary_profiles()
     # queued proposals of other members swept up by admins' auto-commits and by a non-admin's self_update()
-    pr["quick"] = pr["quick"] + [dict(n=10, backend="mixed", profile="props")]
+    pr["quick"] = pr["quick"] + [dict(n=10, backend="mixed", profile="props"), dict(n=6, backend="mixed", profile="devices")]
     pr["thorough"] = pr["thorough"] + [dict(n=60, backend=["mixed", "mem", "sql"][i], profile="props", restarts=i % 2) for i in range(3)]
     return run_marmot(ctx, rt, invariants=["InvC05"], view="C05", mc=MC_CORE,
                       profiles=pr, nontrivial=lambda h: nt_raw(h) or any(d["op"] == "Leave" and d["res"] == "Ok" for d in h), assumptions=ASSUME_MARMOT + ASSUME_ADV,
